@@ -13,6 +13,7 @@ TARGETS = {
     "C01": ([H], [H, "x86_64-apple-darwin", "x86_64-pc-windows-msvc"]),
     "C16": ([ARM], [ARM, "thumbv7neon-unknown-linux-gnueabihf"]),
     "C13": ([H, A64L, ARM], list(extract.ALL_TARGETS)),
+    "C02": ([H, A64L, ARM], list(extract.ALL_TARGETS)),
     "C10": ([H, A64L, ARM], list(extract.ALL_TARGETS)),
     "C15": ([A64L, "aarch64-apple-darwin"], [A64L, "aarch64-apple-darwin", "aarch64-pc-windows-msvc"]),
 }
